@@ -68,3 +68,41 @@ def geometry_ctx():
 
 def fresh_caches():
     _cache.clear()
+
+
+def symmetry_ctx(np_shim=None):
+    key = "symmetry" if np_shim is None else None
+    if key and key in _cache:
+        return _cache[key]
+    import base64
+    import hashlib
+    import collections
+    import operator
+    import os
+    import importlib
+    from .common import REPO
+
+    sd = importlib.import_module("matid.data.symmetry_data")
+    exc = importlib.import_module("matid.utils.exceptions")
+    ws = importlib.import_module("matid.symmetry.wyckoffset")
+    geo = geometry_ctx()
+    ns = {}
+    exec(compile(open(os.path.join(REPO, "matid/data/constants.py")).read(), "constants.py", "exec"), ns)
+    constants = type("constants", (), {k: v for k, v in ns.items() if k.isupper()})
+    g = {"np": np_shim or NP, "hashlib": hashlib, "base64": base64, "defaultdict": collections.defaultdict,
+         "OrderedDict": collections.OrderedDict, "attrgetter": operator.attrgetter,
+         "CellNormalizationError": exc.CellNormalizationError, "MatIDError": exc.MatIDError,
+         "CHIRALITY_PRESERVING_EUCLIDEAN_NORMALIZERS": sd.CHIRALITY_PRESERVING_EUCLIDEAN_NORMALIZERS,
+         "SPACE_GROUP_INFO": sd.SPACE_GROUP_INFO, "WYCKOFF_SETS": sd.WYCKOFF_SETS, "constants": constants,
+         "WyckoffSet": ws.WyckoffSet, "Atoms": AseModule.Atoms,
+         "matid": ModNS("matid", None, {"geometry": ModNS("matid.geometry", geo)})}
+    m = ModuleCtx("matid/symmetry/symmetryanalyzer.py", g)
+    if key:
+        _cache[key] = m
+    return m
+
+
+def make_self(module, clsname, fields=None):
+    o = Obj(module.defs[clsname])
+    o._f.update(fields or {})
+    return o
